@@ -8,6 +8,9 @@ import (
 
 	sdkmath "cosmossdk.io/math"
 	sdk "github.com/cosmos/cosmos-sdk/types"
+
+	"verif/internal/ev"
+	"verif/internal/rig"
 )
 
 var (
@@ -238,3 +241,14 @@ func boundaryHeight(c int) int64 {
 	return []int64{1, 200, 65400, 16777100, 4294967200}[c%5]
 }
 
+
+// judgeSnapPanics: the observer's snapshot is made of the module's own queries; one of them panicking is a violation of
+// its own (the state has become unreadable through the module's interface), not a reason to end the run.
+func judgeSnapPanics(run *ev.Run, r *rig.Rig, prefix string, quiet bool) {
+	for _, p := range r.SnapPanics {
+		if !quiet {
+			run.Violation(prefix+":query-panicked", map[string]any{"panic": p}, "a query of the module panicked while the state was being read: %s", p)
+		}
+	}
+	r.SnapPanics = nil
+}
